@@ -21,7 +21,8 @@ Sigma == << "<", ">", "&", "\"", "'", "`", "/", "=", " ", "a", "script", "style=
             "&lt;", "&amp;", "&#39;", "&quot",
             "@", "$", "~", "^",     \* stand for FULLWIDTH " < > & (U+FF02, U+FF1C, U+FF1E, U+FF06): ordinary characters for
                                     \* HTML that must be shown verbatim (TLA+ strings are ASCII; the harness maps both ways)
-            "\\", "\\074", "\\g<0>", "{0}", "%s" >>  \* text that means something to a templating step applied AFTER escaping
+            "\\", "\\074", "\\g<0>", "{0}", "%s",
+            "</SCRIPT>", "</script >" >>  \* text that means something to a templating step applied AFTER escaping
                                     \* (regex replacement templates, str.format, %-formatting): ordinary characters for HTML
 NS == Len(Sigma)
 
